@@ -24,6 +24,7 @@ import (
 	"go/token"
 	"os"
 	"path/filepath"
+	"reflect"
 	"sort"
 	"strconv"
 	"strings"
@@ -1239,6 +1240,9 @@ func errorfToLean(e ast.Expr, whatSrc, lineSrc, lineLean string) string {
 	if !ok {
 		failAt(e, "expected fmt.Errorf(...), got %s", src(e))
 	}
+	if c, ok := errorsNewAsErrorf(call, whatSrc, lineSrc); ok {
+		call = c
+	}
 	if x, sel, ok := selOf(call.Fun); !ok || x != "fmt" || sel != "Errorf" || len(call.Args) == 0 {
 		failAt(e, "expected fmt.Errorf(...), got %s", src(e))
 	}
@@ -1260,6 +1264,57 @@ func errorfToLean(e ast.Expr, whatSrc, lineSrc, lineLean string) string {
 		failAt(e, "expected the arguments (%s, %s) in %s", whatSrc, lineSrc, src(e))
 	}
 	return "⟨." + k.kind + ", some " + paren(lineLean) + "⟩"
+}
+
+// `errors.New(s1 + what + s2 + strconv.Itoa(line) …)` read as `fmt.Errorf("s1%ss2%d…", what, line)`.
+// fmt.Errorf with a format that has no `%w` verb returns errors.New(fmt.Sprintf(format, args...)) (fmt/errors.go,
+// `case 0`): the same dynamic type, no Unwrap, a fresh pointer per call.  A string literal stands for itself (`%` is
+// written `%%`); the only other operands accepted are the expression whatSrc — which every caller passes as an
+// expression of the plain type `string` (a `string` parameter, or a conversion `string(…)`), for which `%s` writes
+// the bytes unchanged — and `strconv.Itoa(lineSrc)` — whose argument has type int (Itoa takes nothing else; the
+// callers pass an `int` parameter or the dereferenced `*int`), for which `%d` is the decimal form Itoa produces.
+// Anything else is not rewritten (and refused by the caller).
+func errorsNewAsErrorf(call *ast.CallExpr, whatSrc, lineSrc string) (*ast.CallExpr, bool) {
+	if x, sel, ok := selOf(call.Fun); !ok || x != "errors" || sel != "New" || len(call.Args) != 1 {
+		return nil, false
+	}
+	var parts []ast.Expr
+	var flat func(e ast.Expr) bool
+	flat = func(e ast.Expr) bool {
+		e = unparen(e)
+		if b, ok := e.(*ast.BinaryExpr); ok {
+			return b.Op == token.ADD && flat(b.X) && flat(b.Y)
+		}
+		parts = append(parts, e)
+		return true
+	}
+	if !flat(call.Args[0]) {
+		return nil, false
+	}
+	format := ""
+	var args []ast.Expr
+	for _, p := range parts {
+		if lit, ok := stringLit(p); ok {
+			format += strings.ReplaceAll(lit, "%", "%%")
+			continue
+		}
+		if whatSrc != "" && src(p) == whatSrc {
+			format += "%s"
+			args = append(args, p)
+			continue
+		}
+		if c, ok := p.(*ast.CallExpr); ok && lineSrc != "" && len(c.Args) == 1 && src(c.Args[0]) == lineSrc {
+			if x, sel, ok := selOf(c.Fun); ok && x == "strconv" && sel == "Itoa" {
+				format += "%d"
+				args = append(args, c.Args[0])
+				continue
+			}
+		}
+		return nil, false
+	}
+	nargs := append([]ast.Expr{&ast.BasicLit{ValuePos: call.Pos(), Kind: token.STRING, Value: strconv.Quote(format)}}, args...)
+	return &ast.CallExpr{Fun: &ast.SelectorExpr{X: &ast.Ident{NamePos: call.Pos(), Name: "fmt"}, Sel: &ast.Ident{NamePos: call.Pos(), Name: "Errorf"}},
+		Lparen: call.Lparen, Args: nargs, Rparen: call.Rparen}, true
 }
 
 // --- the machines
@@ -1289,6 +1344,8 @@ type machine struct {
 	endErr    string // `PErr` of the return behind the loop
 	utfErr    string // `PErr` of the decoding error
 	goLines   int
+
+	condPrec map[string]int // the precedence (see cval) of the tests of the `if` terms built so far
 }
 
 type builder struct {
@@ -1353,7 +1410,7 @@ func leanName(goName string) string {
 
 type kont func(*penv) lnode
 
-func newMachine(fd *ast.FuncDecl, kind, genName string, all map[string]*machine) *machine {
+func newMachine(fd *ast.FuncDecl, kind, genName string, all map[string]*machine, funcs map[string]*ast.FuncDecl) *machine {
 	m := &machine{kind: kind, decl: fd, genName: genName, all: all}
 	ft := fd.Type
 	if len(ft.Params.List) != 2 || len(ft.Params.List[0].Names) != 1 || len(ft.Params.List[1].Names) != 1 ||
@@ -1467,6 +1524,9 @@ func newMachine(fd *ast.FuncDecl, kind, genName string, all map[string]*machine)
 	}
 	// the decoding prologue
 	lb := loop.Body.List
+	if exp, ok := m.decoderHelperPrologue(lb, funcs); ok {
+		lb = exp
+	}
 	if len(lb) < 2 ||
 		src(lb[0]) != m.charVar+", "+m.sizeVar+" = utf8.DecodeRuneInString("+m.jsonVar+"["+m.idxVar+":])" {
 		failAt(loop.Body, "expected `%s, %s = utf8.DecodeRuneInString(%s[%s:])` at the top of the loop",
@@ -1504,6 +1564,149 @@ func newMachine(fd *ast.FuncDecl, kind, genName string, all map[string]*machine)
 	}
 	m.goLines = fset.Position(fd.End()).Line - fset.Position(fd.Pos()).Line + 1
 	return m
+}
+
+// decoderHelperPrologue recognises a loop prologue that calls a DECODER HELPER,
+//
+//	[var err error]
+//	char, size, err = h(json[i:], line)
+//	if err != nil { return nil, 0, err }
+//
+// where h is a package-level function of the shape
+//
+//	func h(p0 string, p1 *int) (rune, int, error) {
+//		c, s := utf8.DecodeRuneInString(p0)
+//		if <check over c, s> { return 0, 0, <E> }
+//		S…                        // no return, no declaration, mentions only c, s, p1 and names that are not the caller's
+//		return c, s, nil
+//	}
+//
+// and returns the prologue with the call unfolded: `char, size = utf8.DecodeRuneInString(json[i:])`,
+// `if <check over char, size> { return nil, 0, <E> }`, S[c, s, p1 := char, size, line], followed by the rest of
+// the loop body.  This is the execution of the call: h runs the decoding on the same substring; on its early return
+// err is the non-nil <E> (checked to be a fmt.Errorf / errors.New call by errorfToLean), so the caller returns
+// (nil, 0, <E>) and the values 0, 0 assigned to char and size are never read; otherwise err is nil, the caller's `if`
+// is not taken, char and size hold c and s, and S has run on c, s and the caller's line counter (p1 is the pointer
+// `line` itself).  S only reads and writes c, s and *p1, which after the call are char, size and *line, so running
+// it on those variables directly is the same.  The unfolded prologue is then checked like a written-out one.
+func (m *machine) decoderHelperPrologue(lb []ast.Stmt, funcs map[string]*ast.FuncDecl) ([]ast.Stmt, bool) {
+	k := 0
+	errVar := ""
+	if k < len(lb) {
+		if ds, ok := lb[k].(*ast.DeclStmt); ok {
+			gd, ok := ds.Decl.(*ast.GenDecl)
+			if !ok || gd.Tok != token.VAR || len(gd.Specs) != 1 {
+				return nil, false
+			}
+			vs := gd.Specs[0].(*ast.ValueSpec)
+			if len(vs.Names) != 1 || len(vs.Values) != 0 || vs.Type == nil || src(vs.Type) != "error" {
+				return nil, false
+			}
+			errVar = vs.Names[0].Name
+			k++
+		}
+	}
+	if errVar == "" || k+1 >= len(lb) {
+		return nil, false
+	}
+	as, ok := lb[k].(*ast.AssignStmt)
+	if !ok || as.Tok != token.ASSIGN || len(as.Lhs) != 3 || len(as.Rhs) != 1 ||
+		!isIdent(as.Lhs[0], m.charVar) || !isIdent(as.Lhs[1], m.sizeVar) || !isIdent(as.Lhs[2], errVar) {
+		return nil, false
+	}
+	call, ok := as.Rhs[0].(*ast.CallExpr)
+	if !ok || len(call.Args) != 2 || src(call.Args[0]) != m.jsonVar+"["+m.idxVar+":]" || !isIdent(call.Args[1], m.lineVar) {
+		return nil, false
+	}
+	fn, ok := call.Fun.(*ast.Ident)
+	if !ok || funcs[fn.Name] == nil || m.all[fn.Name] != nil {
+		return nil, false
+	}
+	h := funcs[fn.Name]
+	chk, ok := lb[k+1].(*ast.IfStmt)
+	if !ok || chk.Init != nil || chk.Else != nil || src(chk.Cond) != errVar+" != nil" || len(chk.Body.List) != 1 {
+		return nil, false
+	}
+	if r, ok := chk.Body.List[0].(*ast.ReturnStmt); !ok || len(r.Results) != 3 || src(r.Results[0]) != "nil" ||
+		src(r.Results[1]) != "0" || !isIdent(r.Results[2], errVar) {
+		return nil, false
+	}
+	// the helper
+	ft := h.Type
+	if ft.TypeParams != nil || len(ft.Params.List) != 2 || len(ft.Params.List[0].Names) != 1 || len(ft.Params.List[1].Names) != 1 ||
+		src(ft.Params.List[0].Type) != "string" || src(ft.Params.List[1].Type) != "*int" ||
+		ft.Results == nil || len(ft.Results.List) != 3 || len(ft.Results.List[0].Names) != 0 ||
+		src(ft.Results.List[0].Type) != "rune" || src(ft.Results.List[1].Type) != "int" || src(ft.Results.List[2].Type) != "error" {
+		failAt(h, "%s: not a decoder helper (string, *int) (rune, int, error)", fn.Name)
+	}
+	p0, p1 := ft.Params.List[0].Names[0].Name, ft.Params.List[1].Names[0].Name
+	hb := h.Body.List
+	if len(hb) < 3 {
+		failAt(h, "%s: not a decoder helper", fn.Name)
+	}
+	dec, ok := hb[0].(*ast.AssignStmt)
+	if !ok || dec.Tok != token.DEFINE || len(dec.Lhs) != 2 || len(dec.Rhs) != 1 || src(dec.Rhs[0]) != "utf8.DecodeRuneInString("+p0+")" {
+		failAt(hb[0], "%s: expected `c, s := utf8.DecodeRuneInString(%s)`", fn.Name, p0)
+	}
+	c, sz := src(dec.Lhs[0]), src(dec.Lhs[1])
+	if c == "_" || sz == "_" || c == sz || c == p0 || c == p1 || sz == p0 || sz == p1 || p0 == p1 {
+		failAt(hb[0], "%s: expected `c, s := utf8.DecodeRuneInString(%s)`", fn.Name, p0)
+	}
+	hchk, ok := hb[1].(*ast.IfStmt)
+	if !ok || hchk.Init != nil || hchk.Else != nil || len(hchk.Body.List) != 1 || identOccurs(hchk.Cond, p0)+identOccurs(hchk.Cond, p1) != 0 {
+		failAt(hb[1], "%s: expected the decoding check `if … { return 0, 0, … }`", fn.Name)
+	}
+	hret, ok := hchk.Body.List[0].(*ast.ReturnStmt)
+	if !ok || len(hret.Results) != 3 || src(hret.Results[0]) != "0" || src(hret.Results[1]) != "0" {
+		failAt(hb[1], "%s: expected the decoding check `if … { return 0, 0, … }`", fn.Name)
+	}
+	last, ok := hb[len(hb)-1].(*ast.ReturnStmt)
+	if !ok || len(last.Results) != 3 || !isIdent(last.Results[0], c) || !isIdent(last.Results[1], sz) || src(last.Results[2]) != "nil" {
+		failAt(hb[len(hb)-1], "%s: expected `return %s, %s, nil` at the end", fn.Name, c, sz)
+	}
+	mid := hb[2 : len(hb)-1]
+	own := map[string]bool{c: true, sz: true, p1: true}
+	callers := map[string]bool{errVar: true, p0: true}
+	for _, v := range []string{m.stateVar, m.accVar, m.valVar, m.keyVar, m.inValVar, m.charVar, m.sizeVar, m.idxVar, m.jsonVar, m.lineVar} {
+		callers[v] = true
+	}
+	for _, st := range mid {
+		ast.Inspect(st, func(n ast.Node) bool {
+			switch n := n.(type) {
+			case *ast.ReturnStmt, *ast.FuncLit, *ast.DeferStmt, *ast.GoStmt, *ast.LabeledStmt, *ast.BranchStmt, *ast.DeclStmt, *ast.RangeStmt:
+				failAt(n, "%s: unsupported statement in a decoder helper", fn.Name)
+			case *ast.AssignStmt:
+				if n.Tok == token.DEFINE {
+					failAt(n, "%s: unsupported statement in a decoder helper", fn.Name)
+				}
+			case *ast.Ident:
+				if callers[n.Name] && !own[n.Name] {
+					failAt(n, "%s: %s would be captured by the caller", fn.Name, n.Name)
+				}
+			}
+			return true
+		})
+	}
+	// the unfolded prologue
+	body := copyStmts(append([]ast.Stmt{hchk}, mid...))
+	tmp := map[string]string{c: "\x00c", sz: "\x00s", p1: "\x00l"}
+	for from, t := range tmp {
+		renameIdent(body, from, t)
+	}
+	renameIdent(body, "\x00c", m.charVar)
+	renameIdent(body, "\x00s", m.sizeVar)
+	renameIdent(body, "\x00l", m.lineVar)
+	nchk := body[0].(*ast.IfStmt)
+	nret := nchk.Body.List[0].(*ast.ReturnStmt)
+	nret.Results[0] = &ast.Ident{NamePos: nret.Results[0].Pos(), Name: "nil"}
+	ndec := &ast.AssignStmt{
+		Lhs:    []ast.Expr{as.Lhs[0], as.Lhs[1]},
+		TokPos: as.TokPos, Tok: token.ASSIGN,
+		Rhs: []ast.Expr{&ast.CallExpr{Fun: &ast.SelectorExpr{X: &ast.Ident{NamePos: call.Pos(), Name: "utf8"}, Sel: &ast.Ident{NamePos: call.Pos(), Name: "DecodeRuneInString"}},
+			Lparen: call.Lparen, Args: []ast.Expr{call.Args[0]}, Rparen: call.Rparen}},
+	}
+	out := append([]ast.Stmt{ndec}, body...)
+	return append(out, lb[k+2:]...), true
 }
 
 func methodCallNode(n ast.Node) (x, m string, args []ast.Expr, ok bool) {
@@ -1771,7 +1974,15 @@ func (m *machine) execStmt(st ast.Stmt, env *penv, k kont) lnode {
 			}
 			return elseBranch()
 		}
-		return lIf{cond: c.lean, a: thenBranch(), b: elseBranch()}
+		// a guard around a single if-chain / switch is distributed over the chain (see mkIf)
+		chain := false
+		if st.Else == nil && len(st.Body.List) == 1 {
+			switch st.Body.List[0].(type) {
+			case *ast.IfStmt, *ast.SwitchStmt:
+				chain = true
+			}
+		}
+		return m.mkIf(c, thenBranch(), elseBranch(), chain)
 
 	case *ast.BranchStmt:
 		if st.Tok == token.CONTINUE && st.Label == nil {
@@ -1847,6 +2058,57 @@ func (m *machine) execStmt(st ast.Stmt, env *penv, k kont) lnode {
 	}
 	failAt(st, "unrecognised statement: %s", src(st))
 	return nil
+}
+
+// mkIf builds `if c then a else b`.  A statement behind an `if` without `else` is executed once per path, so the
+// same Lean subterm can appear both in the else branch and at the end of the then branch; a guard that was hoisted
+// in the Go source (`if g { if c1 {A} else if c2 {B} }; REST` for `if g && c1 {A} else if g && c2 {B}; REST`) is
+// distributed back over the chain, by the Boolean identities (the tests are pure Lean `Bool` terms)
+//
+//	if g then Y else Y                        =  Y
+//	if g then (if c then X else T) else Y     =  if g && c then X else (if g then T else Y)
+//
+// applied only when the else-spine of the then branch ends in a term identical to the else branch Y (so that the
+// first identity finally removes the duplicate); otherwise the term is left as it is.  It is applied (chain) where
+// the body of the Go `if` is a single `if` chain or `switch`, the shape of a hoisted guard.
+func (m *machine) mkIf(c cval, a, b lnode, chain bool) lnode {
+	if m.condPrec == nil {
+		m.condPrec = map[string]int{}
+	}
+	m.condPrec[c.lean] = c.prec
+	if chain {
+		if n, ok := m.distribute(c, a, b); ok {
+			return n
+		}
+	}
+	return lIf{cond: c.lean, a: a, b: b}
+}
+
+func (m *machine) distribute(g cval, t, y lnode) (lnode, bool) {
+	if reflect.DeepEqual(t, y) {
+		return y, true
+	}
+	ti, ok := t.(lIf)
+	if !ok {
+		return nil, false
+	}
+	p, known := m.condPrec[ti.cond]
+	if !known {
+		return nil, false
+	}
+	rest, ok := m.distribute(g, ti.b, y)
+	if !ok {
+		return nil, false
+	}
+	l, r := g.lean, ti.cond
+	if g.prec < 35 {
+		l = "(" + l + ")"
+	}
+	if p <= 35 {
+		r = "(" + r + ")"
+	}
+	m.condPrec[l+" && "+r] = 35
+	return lIf{cond: l + " && " + r, a: ti.a, b: rest}, true
 }
 
 func (m *machine) execReturn(st *ast.ReturnStmt, env *penv) lnode {
@@ -2388,8 +2650,8 @@ func genParser(p *pkgInfo) (text string, err error) {
 		return fd
 	}
 	all := map[string]*machine{}
-	all["parseList"] = newMachine(need("parseList"), "list", "pListGen", all)
-	all["parseObject"] = newMachine(need("parseObject"), "object", "pObjectGen", all)
+	all["parseList"] = newMachine(need("parseList"), "list", "pListGen", all, p.funcs)
+	all["parseObject"] = newMachine(need("parseObject"), "object", "pObjectGen", all, p.funcs)
 	var b strings.Builder
 	b.WriteString("/-\nGENERATED by vextract from the Go source (parser.go, anytype.go) — do not edit.\n\n")
 	b.WriteString("A translation of the parser core into Lean: the loops of `parseList` / `parseObject` (symbolic\nexecution of the loop body; conventions of Model/Parser.lean: decoded items as input, a nested\ncall returns the remaining items, `case stateStart` is executed once to obtain the initial\narguments, recursion on fuel), `parseField`, the entry points `ParseList` / `ParseObject` and the\nescape table of `quoteJSON`.  Lemmas/ParserGenEq.lean proves these definitions equal to the\nhand-written model, so a change of the Go source that alters the behaviour breaks the build.\n-/\n")
